@@ -1009,6 +1009,7 @@ fn contains_v3_3_op(expressions: &[Expression]) -> bool {
                     | Binary::LazyOr
                     | Binary::All
                     | Binary::Any
+                    | Binary::Get
                     | Binary::Ffi(_)
             ),
         })
@@ -1021,8 +1022,8 @@ fn contains_v3_3_predicate(predicate: &Predicate) -> bool {
 
 fn contains_v3_3_term(term: &Term) -> bool {
     match term {
-        Term::Null => true,
-        Term::Set(s) => s.contains(&Term::Null),
+        Term::Null | Term::Array(_) | Term::Map(_) => true,
+        Term::Set(s) => s.iter().any(contains_v3_3_term),
         _ => false,
     }
 }
